@@ -20,6 +20,7 @@ import (
 	"log/slog"
 	"os"
 	"reflect"
+	"runtime"
 	"sort"
 	"sync"
 	"sync/atomic"
@@ -165,6 +166,8 @@ type harness struct {
 	arrive    chan *arrival
 	mu        sync.Mutex
 	onSpret   func(string)
+	free      int             // > 0: free-running pass (no gates, environment actions back to back)
+	crashAt   map[Gate]string // free-running: the deliveries the behaviour lets fail
 	log       []Entry
 	events    []Event
 	incs      map[string]int
@@ -282,18 +285,29 @@ func (r *rec) Receive(c *actor.Context) {
 	}
 	h.mu.Unlock()
 
-	a := &arrival{g: Gate{r.name, r.inc, kind, id}, reply: make(chan grant, 1), ack: make(chan struct{}), seq: h.seq.Add(1)}
-	h.arrive <- a
-	g := <-a.reply
-	if g.abandon {
-		h.mu.Lock()
-		h.inside[r.name]--
-		h.mu.Unlock()
-		close(a.ack)
-		return
+	var a *arrival
+	var g grant
+	seq := h.seq.Add(1)
+	if h.free > 0 {
+		// free-running: no gate; the delivery fails if the behaviour says so; now and then the handler takes a while
+		g = grant{crash: h.crashAt[Gate{r.name, r.inc, kind, id}]}
+		if d := freeDelay(h.free, h.sc.ID, int(seq), 3); d > 0 {
+			time.Sleep(d)
+		}
+	} else {
+		a = &arrival{g: Gate{r.name, r.inc, kind, id}, reply: make(chan grant, 1), ack: make(chan struct{}), seq: seq}
+		h.arrive <- a
+		g = <-a.reply
+		if g.abandon {
+			h.mu.Lock()
+			h.inside[r.name]--
+			h.mu.Unlock()
+			close(a.ack)
+			return
+		}
 	}
 	// observations inside the delivery
-	en := Entry{A: r.name, Inc: r.inc, Kind: kind, ID: id, MW: mwok, Seq: a.seq, Kids: []string{}, Alive: []string{}, Dn: []string{}}
+	en := Entry{A: r.name, Inc: r.inc, Kind: kind, ID: id, MW: mwok, Seq: seq, Kids: []string{}, Alive: []string{}, Dn: []string{}}
 	for _, k := range c.Children() {
 		en.Kids = append(en.Kids, h.nameOf(k))
 	}
@@ -315,7 +329,9 @@ func (r *rec) Receive(c *actor.Context) {
 	h.log = append(h.log, en)
 	idx := len(h.log) - 1
 	h.mu.Unlock()
-	close(a.ack)
+	if a != nil {
+		close(a.ack)
+	}
 
 	if succ := h.cfg.Actors[r.name].Succ; kind == "Stopped" && succ != "" && !en.Sreg {
 		h.mu.Lock()
@@ -447,6 +463,8 @@ func (h *harness) monitor(c *actor.Context) {
 var settle = 400 * time.Millisecond
 var grace = 300 * time.Microsecond
 
+const crowdSize = 400
+
 func sameGates(p map[string]*arrival, want []Gate) bool {
 	if len(p) != len(want) {
 		return false
@@ -469,15 +487,20 @@ func gatesOf(p map[string]*arrival) []Gate {
 	return out
 }
 
-func runScenario(cfg Config, sc Scenario) *Result {
+func runScenario(cfg Config, sc Scenario, free int) *Result {
 	e, err := actor.NewEngine(actor.NewEngineConfig())
 	if err != nil {
 		panic(err)
 	}
 	h := &harness{cfg: cfg, sc: sc, e: e, arrive: make(chan *arrival, 64), incs: map[string]int{}, pids: map[string]*actor.PID{},
-		inside: map[string]int{}, seen: map[string][]mwSeen{}, ctxs: map[string]context.Context{}}
+		inside: map[string]int{}, seen: map[string][]mwSeen{}, ctxs: map[string]context.Context{}, free: free, crashAt: map[Gate]string{}}
 	for n := range cfg.Actors {
 		h.pids[n] = h.pidOf(n)
+	}
+	for _, st := range sc.Steps {
+		if st.Op == "grant" && st.Crash != "" {
+			h.crashAt[Gate{st.A, st.Inc, st.Kind, st.ID}] = st.Crash
+		}
 	}
 	h.base = make([]actor.MiddlewareFunc, 0, 8)
 	for i := 1; i <= 3; i++ {
@@ -488,11 +511,19 @@ func runScenario(cfg Config, sc Scenario) *Result {
 	h.cancelled = cctx
 	mon := e.SpawnFunc(h.monitor, "verifmon", actor.WithID("m"))
 	e.Subscribe(mon)
+	// the witness lives under an id that has a model actor's id as a proper string prefix (a/A -> a/Aw): ids are
+	// opaque, what happens to one actor must not touch another whose id merely looks similar
+	wroot := ""
+	for n, c := range cfg.Actors {
+		if c.Parent == "" && h.idName(n) == n && (wroot == "" || n < wroot) {
+			wroot = n
+		}
+	}
 	witness := e.SpawnFunc(func(c *actor.Context) {
 		if _, ok := c.Message().(ping); ok {
 			c.Respond(pong{})
 		}
-	}, "verifwitness", actor.WithID("w"))
+	}, "a", actor.WithID(wroot+"w"))
 	// make sure the subscription is in place before the scenario starts (same inbox, FIFO)
 	barrier := make(chan struct{})
 	b := e.SpawnFunc(func(c *actor.Context) {
@@ -507,6 +538,25 @@ func runScenario(cfg Config, sc Scenario) *Result {
 	e.Send(actor.NewPID("local", "nobody/x"), ping{})
 	<-barrier
 	e.Unsubscribe(b)
+
+	// bystanders: in some scenarios a crowd of unrelated actors sits inside Receive for the whole scenario (each inbox
+	// has its own worker: what one actor does in its handler must not hold up another actor's deliveries)
+	crowdRelease := make(chan struct{})
+	if sc.ID%8 == 5 {
+		var in atomic.Int64
+		for k := 0; k < crowdSize; k++ {
+			p := e.SpawnFunc(func(c *actor.Context) {
+				if _, ok := c.Message().(ping); ok {
+					in.Add(1)
+					<-crowdRelease
+				}
+			}, "crowd", actor.WithID(fmt.Sprint(k)))
+			e.Send(p, ping{})
+		}
+		for until := time.Now().Add(2 * time.Second); in.Load() < crowdSize && time.Now().Before(until); {
+			time.Sleep(200 * time.Microsecond)
+		}
+	}
 
 	res := &Result{ID: sc.ID, DivergedAt: -1, Done: map[string]DoneRec{}, SentBefore: map[string][]int{}, Sent: map[string][]int{}, Reg: map[string]bool{}}
 	pending := map[string]*arrival{}
@@ -588,8 +638,22 @@ func runScenario(cfg Config, sc Scenario) *Result {
 		}
 	}
 
+	if h.free > 0 {
+		// free-running pass: the behaviour's environment actions in the behaviour's order, back to back with an occasional
+		// pause, no gates; the failures happen at the deliveries the behaviour names.  The history is judged by the
+		// property predicates only (it need not be the behaviour's history)
+		res.Diverged = true
+		res.DivergedAt = 0
+		res.Divergence = "free-running"
+	}
 	for i := range sc.Steps {
 		st := &sc.Steps[i]
+		if h.free > 0 && st.Op != "grant" {
+			if d := freeDelay(h.free, sc.ID, 1000+i, 2); d > 0 {
+				time.Sleep(d)
+			}
+			pollDone()
+		}
 		if res.Diverged {
 			// unsteered: environment actions are still issued, gates are granted in arrival order
 			if st.Op == "grant" {
@@ -617,6 +681,12 @@ func runScenario(cfg Config, sc Scenario) *Result {
 				}
 				close(returned)
 			}()
+			if h.free > 0 && !dup {
+				// free-running: the driver goes on as soon as the id is registered (or after a moment)
+				for until := time.Now().Add(2 * time.Millisecond); !h.registered(name) && time.Now().Before(until); {
+					runtime.Gosched()
+				}
+			}
 			if dup {
 				// the call has to be over before the next operation is issued (it returns at once unless the
 				// code wrongly starts a second actor, in which case its Initialized delivery shows up as a gate)
@@ -655,6 +725,9 @@ func runScenario(cfg Config, sc Scenario) *Result {
 			delete(pending, st.A)
 			a.release(grant{crash: st.Crash})
 		}
+		if h.free > 0 {
+			continue
+		}
 		if res.Diverged {
 			h.drainUnsteered(pending, pollDone)
 			continue
@@ -667,7 +740,7 @@ func runScenario(cfg Config, sc Scenario) *Result {
 	}
 	// final settle: wait for the events the model predicts (bounded)
 	deadline := time.Now().Add(settle)
-	for int(h.evCount.Load()) < sc.NEvents && time.Now().Before(deadline) {
+	for h.free == 0 && int(h.evCount.Load()) < sc.NEvents && time.Now().Before(deadline) {
 		time.Sleep(200 * time.Microsecond)
 	}
 	// a delivery the behaviour does not predict may still be on its way (a goroutine has to be scheduled first): every
@@ -713,8 +786,12 @@ func runScenario(cfg Config, sc Scenario) *Result {
 	if res.Diverged || sc.Racy {
 		// unsteered, or steered through a race the code may have resolved the other way: nothing tells us when the
 		// engine is done; require two identical observations 60 ms apart
-		if res.Diverged {
+		if res.Diverged && h.free == 0 {
 			h.drainUnsteered(pending, pollDone)
+		}
+		pause := 60 * time.Millisecond
+		if h.free > 0 {
+			pause = 30 * time.Millisecond // (nothing is parked: the engine runs on its own)
 		}
 		prev := ""
 		for k := 0; k < 20; k++ {
@@ -730,7 +807,10 @@ func runScenario(cfg Config, sc Scenario) *Result {
 				break
 			}
 			prev = cur
-			time.Sleep(60 * time.Millisecond)
+			time.Sleep(pause)
+			if h.free > 0 {
+				continue
+			}
 			if res.Diverged {
 				h.drainUnsteered(pending, pollDone)
 			} else {
@@ -803,6 +883,7 @@ func runScenario(cfg Config, sc Scenario) *Result {
 	h.mu.Unlock()
 	// release whatever is still parked so goroutines do not pile up
 	h.over.Store(true)
+	close(crowdRelease)
 	for _, a := range pending {
 		a.reply <- grant{abandon: true}
 	}
@@ -839,6 +920,18 @@ func (h *harness) drainUnsteered(pending map[string]*arrival, poll func()) {
 	}
 }
 
+// freeDelay: a pseudo-random pause (0 in most cases) that depends only on the pass, the scenario and the position
+func freeDelay(pass, scen, pos, oneIn int) time.Duration {
+	x := uint64(pass)*0x9E3779B97F4A7C15 ^ uint64(scen)*0xBF58476D1CE4E5B9 ^ uint64(pos)*0x94D049BB133111EB
+	x ^= x >> 31
+	x *= 0xD6E8FEB86659FD93
+	x ^= x >> 29
+	if x%uint64(oneIn) != 0 {
+		return 0
+	}
+	return time.Duration((x>>8)%200) * time.Microsecond
+}
+
 func sortedCopy(s []string) []string {
 	out := append([]string{}, s...)
 	sort.Strings(out)
@@ -853,6 +946,8 @@ func main() {
 	graceUs := flag.Int("grace-us", 300, "after an environment action, how long to watch for deliveries the behaviour does not predict")
 	only := flag.Int("only", -1, "run only the scenario with this id")
 	from := flag.Int("from", 0, "skip scenarios with a smaller id")
+	free := flag.Int("free", 0, "> 0: free-running pass with this number (no gates; pauses derived from it)")
+	every := flag.Int("every", 1, "run only every n-th scenario (free-running passes of the quick tier)")
 	flag.Parse()
 	if os.Getenv("VERIF_SLOG") == "" {
 		slog.SetDefault(slog.New(slog.NewTextHandler(io.Discard, nil)))
@@ -895,11 +990,11 @@ func main() {
 				fmt.Fprintln(os.Stderr, "scenario:", e)
 				os.Exit(2)
 			}
-			if (*only < 0 || sc.ID == *only) && sc.ID >= *from {
+			if (*only < 0 || sc.ID == *only) && sc.ID >= *from && (*only >= 0 || (sc.ID+*free)%*every == 0) {
 				if *progress != "" {
 					_ = os.WriteFile(*progress, []byte(fmt.Sprint(sc.ID)), 0o644)
 				}
-				res := runScenario(cfg, sc)
+				res := runScenario(cfg, sc, *free)
 				_ = enc.Encode(res)
 				w.Flush()
 				n++
